@@ -6,6 +6,7 @@ KinModel/RouterSpec.lean (property side), helper lemmas in KinModel/Lemmas/C09*.
 import KinModel.Router
 import KinModel.RouterSpec
 import KinModel.Lemmas.C09Legacy
+import KinModel.Lemmas.C09LegacyComplete
 import KinModel.Lemmas.C09Gorilla
 import KinModel.Lemmas.C09Spec
 import KinModel.Lemmas.C09Witness
@@ -71,6 +72,29 @@ theorem legacy_route_sound_partial (d : Doc) (r : Req) (t m : Str) (ps : List (S
       · split at h
         · simp at h
         · split at h <;> simp at h
+
+/- Full statement (false for the code: documented limitation "variable followed by text in the same segment"):
+     k ∈ docKeys d, "METHOD path" is k's key with its variables replaced by non-empty slash-free values → matched.
+   What holds: every string that a declared key *reads* (`Reads`: constants literally, a variable takes a slash-free
+   value and is followed by '/' or the end of the string) is matched by the trie — to some declared key
+   (`legacy_match_declared`), not necessarily this one when templates overlap. -/
+theorem legacy_match_complete_partial (d : Doc) (m rem : Str) (k : Key) (vals : List Str)
+    (hk : k ∈ docKeys d) (hr : Reads k.sufs vals (stripSlashes (m ++ ' ' :: rem))) :
+    (legacyMatch d m rem).isSome := by
+  obtain ⟨k2, h2⟩ := (build_has_path (docKeys d) emptyNode).2 k hk
+  exact match_complete k.sufs (legacyRoot d) k2 vals _ [] h2 hr
+
+/-- route_complete (legacy, partial): under a matching server, a request that some declared key reads is routed -/
+theorem legacy_route_complete_partial (d : Doc) (r : Req) (sp : List (Str × Str)) (rem : Str) (k : Key) (vals : List Str)
+    (hb : legacyBuildOK d = true) (hs : legacyServer d r = some (sp, rem))
+    (hk : k ∈ docKeys d) (hr : Reads k.sufs vals (stripSlashes (r.method ++ ' ' :: rem))) :
+    ∃ t m ps, legacyFind d r = .route t m ps := by
+  have hm := legacy_match_complete_partial d r.method rem k vals hk hr
+  unfold legacyFind
+  simp only [hb, Bool.not_true, Bool.false_eq_true, if_false, hs]
+  cases hmm : legacyMatch d r.method rem with
+  | none => simp [hmm] at hm
+  | some kv => exact ⟨_, _, _, rfl⟩
 
 /-! ## gorillamux router -/
 
@@ -378,6 +402,21 @@ open W in
 /-- the hypotheses of `legacy_match_sound_partial` hold on a match with two non-empty bindings -/
 example : ∃ k vals, legacyMatch dFam get (s "/a/7/c/9") = some (k, vals) ∧ (∀ v ∈ vals, v ≠ []) ∧ vals.length = 2 :=
   ⟨⟨get, s "/a/{x}/c/{y}"⟩, [s "7", s "9"], by decide +kernel, by decide +kernel, rfl⟩
+
+open W in
+/-- the hypotheses of `legacy_match_complete_partial` hold: the key "GET /a/{x}/c/{y}" reads "GET /a/7/c/9" -/
+example : (⟨get, s "/a/{x}/c/{y}"⟩ : Key) ∈ docKeys dFam ∧
+    Reads (⟨get, s "/a/{x}/c/{y}"⟩ : Key).sufs [s "7", s "9"] (stripSlashes (get ++ ' ' :: s "/a/7/c/9")) := by
+  refine ⟨by decide +kernel, ?_⟩
+  have e1 : (⟨get, s "/a/{x}/c/{y}"⟩ : Key).sufs =
+      [.const (s "GET "), .const (s "/"), .const (s "a"), .const (s "/"), .var, .const (s "/"), .const (s "c"), .const (s "/"), .var] := by
+    decide +kernel
+  have e2 : stripSlashes (get ++ ' ' :: s "/a/7/c/9") =
+      s "GET " ++ (s "/" ++ (s "a" ++ (s "/" ++ (s "7" ++ (s "/" ++ (s "c" ++ (s "/" ++ (s "9" ++ [])))))))) := by
+    decide +kernel
+  rw [e1, e2]
+  refine .const _ (.const _ (.const _ (.const _ (.var (by decide +kernel) (by decide +kernel)
+    (.const _ (.const _ (.const _ (.var (by decide +kernel) (by decide +kernel) .nil))))))))
 
 open W in
 /-- the hypotheses of `gorilla_route_complete_noservers_partial` (no shadowing route) hold for GET /a/zz on d40 -/
